@@ -648,6 +648,13 @@ class Registries:
         for fn in [n for n in ast.walk(ci.node) if isinstance(n, (ast.FunctionDef, ast.AsyncFunctionDef))]:
             src = U(fn)
             consts = {n.value for n in ast.walk(fn) if isinstance(n, ast.Constant) and isinstance(n.value, str)}
+            # prefixes kept in a class-level (or module-level) constant the builder names: self._NON_RULE_PREFIXES
+            named = {n.attr for n in ast.walk(fn) if isinstance(n, ast.Attribute) and isinstance(n.value, ast.Name) and n.value.id in ("self", "cls")} \
+                | {n.id for n in ast.walk(fn) if isinstance(n, ast.Name)}
+            for st_ in list(ci.node.body) + list(ci.module.tree.body):
+                tg_ = st_.targets if isinstance(st_, ast.Assign) else [st_.target] if isinstance(st_, ast.AnnAssign) and st_.value is not None else []
+                if any(isinstance(t, ast.Name) and t.id in named for t in tg_):
+                    consts |= {n.value for n in ast.walk(st_.value) if isinstance(n, ast.Constant) and isinstance(n.value, str)}
             if "getmembers" in src and "startswith" in src and {"render", "_"} <= consts:
                 builders.append(fn)
         if not builders:
